@@ -258,12 +258,23 @@ impl Drop for Sim {
         for b in &mut self.bgs {
             b.task = None;
         }
-        let _ = hooks::take_spawned();
+        for _ in 0..16 {
+            if hooks::take_spawned().is_empty() {
+                break;
+            }
+        }
     }
 }
 
 impl Sim {
     pub fn new(cfg: &SimConfig) -> Sim {
+        // tasks left over from the previous execution (spawned while it was being torn down) must be
+        // dropped while the old world still exists: their destructors talk to harness connections
+        for _ in 0..16 {
+            if hooks::take_spawned().is_empty() {
+                break;
+            }
+        }
         // fresh world
         world::with(|w| {
             *w = world::World::default();
